@@ -79,6 +79,12 @@ def _cc(ch):
     return "punct"
 
 
+def h32(obj):
+    import hashlib
+
+    return hashlib.blake2b(repr(obj).encode("utf-8", "surrogatepass"), digest_size=4).hexdigest()
+
+
 def md_diff_class(src, out):
     """Abstract the first difference between source and regenerated text (grouping only)."""
     i = 0
@@ -110,7 +116,9 @@ def c02_eval(src, tokens):
         return "fail", "regen-exc:" + call_site(e)
     if out == src:
         return "pass", None
-    return "fail", md_diff_class(src, out)
+    # coarse class for grouping + exact fingerprint of the (wrong) output: a known-failing document is
+    # matched only while it fails in exactly the same way
+    return "fail", md_diff_class(src, out) + "#" + h32(out)
 
 
 _BLOCKISH = re.compile(r"<(p|h\d|ul|ol|li|blockquote|pre|hr)\b")
@@ -134,7 +142,7 @@ def c03_eval(src, tokens):
     nt = len(_BLOCKISH.findall(ref)) >= 2 or bool(_INLINEISH.search(ref)) or "<blockquote" in ref or "<li" in ref
     if a == b:
         return "pass", None, nt
-    return "fail", "html:" + htmlnorm.diff_class(a, b), nt
+    return "fail", "html:" + htmlnorm.diff_class(a, b) + "#" + h32(a), nt
 
 
 def eval_doc(src, props, extensions=()):
@@ -155,8 +163,8 @@ def eval_doc(src, props, extensions=()):
         sig = tokens_wf.check(tokens)
         res["C04"] = ("fail" if sig else "pass", sig, tokens_wf.depth_classes(tokens))
     if "C05" in props:
-        fails = positions.check(src, tokens)
-        res["C05"] = ("fail" if fails else "pass", ",".join(fails) if fails else None, positions.nontrivial(tokens))
+        fails, fine = positions.check_detailed(src, tokens)
+        res["C05"] = ("fail" if fails else "pass", (",".join(fails) + "#" + h32(fine)) if fails else None, positions.nontrivial(tokens))
     if "C03" in props:
         res["C03"] = c03_eval(src, tokens)
     return res
